@@ -123,7 +123,9 @@ def gen_params(name="polymer", outpath=Path("polymer.itp"), inpath=[],
         with deferred_open(outpath, 'w') as outfile:
             header = [ ' '.join(sys.argv) + "\n" ]
             header.append("Please cite the following papers:")
-            for citation in meta_molecule.molecule.citations:
+            # citations are kept in a set: write them in a fixed order so that
+            # repeated runs give the same file
+            for citation in sorted(meta_molecule.molecule.citations):
                 # citations without an entry in the force-field bibliography
                 # (e.g. the ones vermouth attaches by default) are skipped
                 if citation not in meta_molecule.molecule.force_field.citations:
